@@ -25,6 +25,12 @@ def sign_rules(chk, fx, rule_sign, rule_kind=None):
             else:
                 chk.ok(rule_sign, inst, sample='declared %s: sign-sound' % inst)
             if rule_kind is not None:
+                # Python: a negative base raised to a non-integral power is a complex number
+                complex_possible = op == '**' and rhs == 'Float' and (OT.dom(selft)[1] is None or OT.dom(selft)[1] < 0)      # (a Ratio value is an integer at run time today)
+                if complex_possible:
+                    chk.bad(rule_kind, 'Context::init_builtin_classes', inst + ' (complex)',
+                            'declared `%s`: for a negative base and a non-integral exponent Python yields a complex number ((-8.0) ** 0.5), which the wrapper %s cannot hold: the '
+                            'type-checked program raises TypeError' % (inst, out), OT.CLASSES, line)
                 if oi and nonint:
                     chk.bad(rule_kind, 'Context::init_builtin_classes', inst,
                             'declared `%s`: Python yields a non-integral value for some operands of these classes, but the result is wrapped in %s (silently truncated)' % (inst, out),
